@@ -11,7 +11,7 @@ __CPROVER_requires((lvl1 == Motion_Velocity || lvl1 == Motion_Acceleration) && 0
 __CPROVER_requires(state->stage >= Stage_Model && n == state->mine.nUInUse)
 LOCKAT_ASSIGNS(state)
 __CPROVER_ensures(!ghost_threw)
-__CPROVER_ensures(state->iv.mobilizerLockLevel.data[gm] == (gm == ME(self) ? Motion_Acceleration : OLD(state->iv.mobilizerLockLevel.data[gm])))
+__CPROVER_ensures(state->iv.mobilizerLockLevel.data[gm] == (gm == ME(self) ? Motion_Acceleration : __CPROVER_old(state->iv.mobilizerLockLevel.data[gm])))
 __CPROVER_ensures(MINE_U(state, gu) ==> PZERO(state->iv.lockedUs.data[gu]))
 __CPROVER_ensures(!MINE_U(state, gu) ==> LU_UNCHANGED(state))
 __CPROVER_ensures(U_UNCHANGED(state) && Q_UNCHANGED(state) && LQ_UNCHANGED(state))
@@ -28,7 +28,7 @@ WF_LOCK(self, state)
 __CPROVER_requires(state->stage >= Stage_Model)
 LOCKAT_ASSIGNS(state)
 __CPROVER_ensures(!ghost_threw)
-__CPROVER_ensures(state->iv.mobilizerLockLevel.data[gm] == (gm == ME(self) ? Motion_Acceleration : OLD(state->iv.mobilizerLockLevel.data[gm])))
+__CPROVER_ensures(state->iv.mobilizerLockLevel.data[gm] == (gm == ME(self) ? Motion_Acceleration : __CPROVER_old(state->iv.mobilizerLockLevel.data[gm])))
 __CPROVER_ensures(MINE_U(state, gu) ==> PZERO(state->iv.lockedUs.data[gu]))
 __CPROVER_ensures(!MINE_U(state, gu) ==> LU_UNCHANGED(state))
 __CPROVER_ensures(U_UNCHANGED(state) && Q_UNCHANGED(state) && LQ_UNCHANGED(state))
@@ -42,7 +42,7 @@ __CPROVER_ensures(U_UNCHANGED(state) && Q_UNCHANGED(state) && LQ_UNCHANGED(state
 /* L3: lock / lockAt then the observers: isLocked, getLockLevel; unlock then !isLocked */
 bool L_lock_then_unlock_observers(const struct MobodImpl* self, struct State* state, Motion_Level level)
 WF_LOCK(self, state)
-__CPROVER_requires(state->stage >= Stage_Model && IS_LEVEL(level) && level != Motion_NoLevel)
+__CPROVER_requires(state->stage >= Stage_Model && IS_LEVEL(level) && level != Motion_NoLevel && gm == ME(self))
 LOCKAT_ASSIGNS(state)
 __CPROVER_ensures(!ghost_threw && __CPROVER_return_value)
 {
@@ -66,25 +66,71 @@ static void havoc_ghosts(void) {
   gq = nondet_int(); gu = nondet_int(); gm = nondet_int(); gi = nondet_int(); gp = nondet_int();
   g_nqt = nondet_int(); g_nut = nondet_int(); g_nb = nondet_int(); g_npud = nondet_int();
 }
-void h_lock(void)   { const struct MobodImpl* self; struct State* s; Motion_Level l; havoc_ghosts(); MI_lock(self, s, l); }
-void h_lockAt(void) { const struct MobodImpl* self; struct State* s; Motion_Level l; int n; const Real* v; havoc_ghosts(); MI_lockAt(self, s, n, v, l); }
 void h_unlock(void) { const struct MobodImpl* self; struct State* s; havoc_ghosts(); MI_unlock(self, s); }
 void h_getLockLevel(void) { const struct MobodImpl* self; struct State* s; havoc_ghosts(); MI_getLockLevel(self, s); }
 void h_isLocked(void) { const struct MobodImpl* self; struct State* s; havoc_ghosts(); MB_isLocked(self, s); }
-void h_getLockValueAsVector(void) { const struct MobodImpl* self; struct State* s; havoc_ghosts(); MI_getLockValueAsVector(self, s); }
 void h_L1(void) { const struct MobodImpl* self; struct State* s; Motion_Level l; int n; const Real* v; bool b; havoc_ghosts(); L_lockAt_then_lockAcc(self, s, n, v, l, b); }
 void h_L2(void) { const struct MobodImpl* self; struct State* s; bool b; havoc_ghosts(); L_lockVel_then_lockAcc(self, s, b); }
 void h_L3(void) { const struct MobodImpl* self; struct State* s; Motion_Level l; havoc_ghosts(); L_lock_then_unlock_observers(self, s, l); }
+
+
+/* ---- plain harnesses (no dfcc) for the functions with slot loops: the SAME clause lists (LOCK_POST / LOCKAT_POST / GLV_POST) are asserted on the
+   real bodies from the same preconditions (WF_SIZES, WF_SLOTS, vectors of the stated sizes with arbitrary contents); pre-state values are snapshots ---- */
+#undef OLDV
+#define OLDV(name, x) old_##name
+#define ASSERT_E(c) __CPROVER_assert(c, #c);
+double nondet_double(void); _Bool nondet_bool(void);
+#define PLAIN_SETUP \
+  struct MobodImpl me_; struct State st_; const struct MobodImpl* self = &me_; struct State* state = &st_; \
+  havoc_ghosts(); ghost_threw = 0; \
+  __CPROVER_assume(WF_SIZES); \
+  st_.q.n = g_nqt; st_.q.data = (Real*)malloc(sizeof(Real) * (unsigned long)g_nqt); \
+  st_.iv.lockedQs.n = g_nqt; st_.iv.lockedQs.data = (Real*)malloc(sizeof(Real) * (unsigned long)g_nqt); \
+  st_.u.n = g_nut; st_.u.data = (Real*)malloc(sizeof(Real) * (unsigned long)g_nut); \
+  st_.iv.lockedUs.n = g_nut; st_.iv.lockedUs.data = (Real*)malloc(sizeof(Real) * (unsigned long)g_nut); \
+  st_.iv.mobilizerLockLevel.n = g_nb; st_.iv.mobilizerLockLevel.data = (int*)malloc(sizeof(int) * (unsigned long)g_nb); \
+  __CPROVER_assume(0 <= me_.myMobilizedBodyIndex && me_.myMobilizedBodyIndex < g_nb); \
+  __CPROVER_assume(WF_SLOTS(state)); \
+  __CPROVER_assume(0 <= gi && gi < 8); \
+  const int old_level = state->iv.mobilizerLockLevel.data[gm]; const Real old_lq = state->iv.lockedQs.data[gq]; const Real old_lu = state->iv.lockedUs.data[gu]; \
+  const Real old_q = state->q.data[gq]; const Real old_u = state->u.data[gu]; const int old_stage = state->stage;
+
+void hp_lock(void) {
+  PLAIN_SETUP
+  Motion_Level level; __CPROVER_assume(IS_LEVEL(level));
+#ifndef COVER_ONLY
+  MI_lock(self, state, level);
+  LOCK_POST(ASSERT_E)
+#endif
+}
+void hp_lockAt(void) {
+  PLAIN_SETUP
+  Motion_Level level; int n; __CPROVER_assume(IS_LEVEL(level) && 0 <= n && n <= 8);
+  const Real* value = (const Real*)malloc(sizeof(Real) * (unsigned long)(n + 1));
+#ifndef COVER_ONLY
+  MI_lockAt(self, state, n, value, level);
+  LOCKAT_POST(ASSERT_E)
+#endif
+}
+void hp_getLockValueAsVector(void) {
+  PLAIN_SETUP
+  __CPROVER_assume(IS_LEVEL(MYLEVEL(state, self)));
+#ifndef COVER_ONLY
+  struct Vector ret = MI_getLockValueAsVector(self, state);
+#define __CPROVER_return_value ret
+  GLV_POST(ASSERT_E)
+#undef __CPROVER_return_value
+  __CPROVER_assert(state->iv.mobilizerLockLevel.data[gm] == old_level && SAME(state->iv.lockedQs.data[gq], old_lq) && SAME(state->iv.lockedUs.data[gu], old_lu), "getLockValueAsVector changes nothing");
+#endif
+}
 
 #ifdef COVER_ONLY
 /* reachability behind the preconditions (ghost indices inside / outside the mobilizer's slots, every level, history with non-zero lockedUs) */
 void h_cover(void) {
   struct State s; Motion_Level level; Real oldLU;
   havoc_ghosts();
-  __CPROVER_assume(0 < g_nqt && g_nqt < 100000 && 0 < g_nut && g_nut < 100000 && 0 < g_nb && g_nb < 100000);
-  __CPROVER_assume(0 <= s.mine.firstQIndex && 0 <= s.mine.nQInUse && s.mine.nQInUse <= 7 && s.mine.firstQIndex + s.mine.nQInUse <= g_nqt);
-  __CPROVER_assume(0 <= s.mine.firstUIndex && 0 <= s.mine.nUInUse && s.mine.nUInUse <= 6 && s.mine.firstUIndex + s.mine.nUInUse <= g_nut);
-  __CPROVER_assume(0 <= gq && gq < g_nqt && 0 <= gu && gu < g_nut && 0 <= gm && gm < g_nb && IS_LEVEL(level));
+  __CPROVER_assume(WF_SIZES);
+  __CPROVER_assume(WF_SLOTS(&s) && IS_LEVEL(level));
   if (level == Motion_Acceleration && MINE_U(&s, gu) && oldLU != 0.0 && s.mine.nUInUse == 3 && gu == s.mine.firstUIndex + 2) __CPROVER_cover(1);
   if (level == Motion_Acceleration && !MINE_U(&s, gu) && gu > s.mine.firstUIndex) __CPROVER_cover(1);
   if (level == Motion_Velocity && MINE_U(&s, gu) && s.mine.nUInUse == 6) __CPROVER_cover(1);
